@@ -578,6 +578,9 @@ pub fn run_case(_rt: &tokio::runtime::Runtime, line: &str) -> String {
     };
     w.snaps.push(w.store.clone());
     let verbose = std::env::var("UM_VERBOSE").map(|v| v == "1").unwrap_or(false);
+    // UM_VIEWS_FROM=k: skip state/view printing and monitors for the first k operations (huge set-up prefixes)
+    let views_from: usize = std::env::var("UM_VIEWS_FROM").ok().and_then(|v| v.parse().ok()).unwrap_or(0);
+    let mut op_index = 0usize;
     let mut resolved = vec![format!("H {}", hd[1])];
     let mut outs = vec![];
     let mut prev: Option<crate::mon::Prev> = None;
@@ -594,6 +597,12 @@ pub fn run_case(_rt: &tokio::runtime::Runtime, line: &str) -> String {
         };
         w.snaps.push(w.store.clone());
         resolved.push(rop.clone());
+        op_index += 1;
+        if op_index <= views_from {
+            w.snaps.pop();
+            outs.push(format!("{} - - m=skipped", res));
+            continue;
+        }
         let st = state_s(&w);
         let vs = views(&w);
         let mon = crate::mon::monitors(&before, &w.store, &toks, &res, &vs.clusters, &vs.proxies, &mut prev);
